@@ -16,6 +16,7 @@ import (
 	"github.com/libp2p/go-libp2p-kad-dht/crawler"
 	"github.com/libp2p/go-libp2p-kad-dht/fullrt"
 	pb "github.com/libp2p/go-libp2p-kad-dht/pb"
+	recpb "github.com/libp2p/go-libp2p-record/pb"
 	"github.com/libp2p/go-libp2p/core/host"
 	"github.com/libp2p/go-libp2p/core/peer"
 	"github.com/libp2p/go-libp2p/core/peerstore"
@@ -28,11 +29,12 @@ import (
 )
 
 func init() {
-	sim.Register(&sim.Scenario{Prop: "C04", Name: "value-fullrt", Weight: 3, Run: func(s *sim.Sim) { c04RunValue(s, "fullrt") },
+	sim.Register(&sim.Scenario{Prop: "C04", Name: "value-fullrt", Weight: 3, Run: func(s *sim.Sim) { c04RunValue(s, "fullrt", false) },
 		Real: []string{"fullrt.FullRT.GetValue/SearchValue/searchValueQuorum/getValues/processValues/execOnMany (fullrt/dht.go)", "fullrt.FullRT.GetClosestPeers over the crawled table", "ProtocolMessenger.GetValue (record key check)", "records.ValueStore (local record)"},
 		Stub: []string{"host.Host/network (simhost)", "pb.MessageSender (level A, simnet.Sender)", "crawler.Crawler (harness stub reporting a fixed peer set)", "remote peers (scripted responders)", "record validator (harness rank validator, time-aware)"},
 		Faults: []string{"fault_rec_invalid", "fault_rec_miskeyed", "fault_rec_empty", "fault_rpc_error", "fault_cancel", "time_advance",
-			"probe_found", "probe_notfound", "probe_stream_multi", "probe_search_ended_early", "probe_local_valid", "probe_local_expired", "probe_local_expired_midsearch", "probe_peer_serves_local_bytes_valid", "probe_peer_serves_local_bytes_expired_at_start", "probe_peer_serves_local_bytes_expired_midsearch", "probe_bestknown_checked"},
+			"probe_found", "probe_notfound", "probe_stream_multi", "probe_search_ended_early", "probe_local_valid", "probe_local_expired", "probe_local_expired_midsearch", "probe_peer_serves_local_bytes_valid", "probe_peer_serves_local_bytes_expired_at_start", "probe_peer_serves_local_bytes_expired_midsearch", "probe_bestknown_checked",
+			"probe_opt_offline", "probe_opt_expired", "probe_opt_offline_local_not_valid", "probe_local_never_valid", "probe_local_outlived_max_age", "probe_stamp_valid_value_held_past_requesters_max_age", "probe_stamp_valid_value_from_the_future", "probe_stamp_valid_value_unparsable"},
 	})
 }
 
@@ -68,7 +70,7 @@ func c04BuildFullRT(w *c04World) error {
 	cr := &c04Crawler{s: s, h: w.host}
 	waitFrac := []float64{0.3, 0.6, 1.0}[s.Draw("wait-frac", 3)]
 	perOp := []time.Duration{5 * time.Second, 1500 * time.Millisecond, 40 * time.Second}[s.Draw("per-op", 3)]
-	dopts := append(c04Opts(w.val),
+	dopts := append(c04Opts(w.val, w.cfg.MaxAge),
 		dht.BucketSize(w.cfg.K),
 		dht.Datastore(d),
 		dht.BootstrapPeers(), // NewFullRT calls the bootstrap-peers function unconditionally
@@ -97,6 +99,7 @@ func c04BuildFullRT(w *c04World) error {
 			s.Quiesce()
 		},
 		stored: func(val []byte) bool { return c04StoredIn(d, val) },
+		plant:  func(key string, old []byte, m func(*recpb.Record)) bool { return c04PlantIn(d, key, old, m) },
 		close: func() {
 			_ = frt.Close()
 			_ = w.host.Close()
